@@ -457,7 +457,7 @@ class Console:
     def random_version_frame(self):
         rng = self.rng
         return self.emit(console_version(self.gen, rng.choice([0, 0, 1, 1, 2, 255]),
-                                         rng.choice([["1.2.3"], ["1.2.4"], ["1.0.5", "2.0"], ["9.9", "1.2.3"], ["1.2.3"]])))
+                                         rng.choice([["1.2.3"], ["1.2.4"], ["1.0.5", "2.0"], ["2.0", "1.0.5"], ["9.9", "1.2.3"], ["1.2.3", "9.9"], ["1.2.3", "1.2.3"], ["1.2.3"]])))
 
     def random_frame(self):
         k = self.rng.randint(0, 19)
